@@ -459,6 +459,9 @@ func (o *vpC04Origin) Dial(addr string) (net.Conn, error) {
 	o.mu.Lock()
 	if o.stopped {
 		o.mu.Unlock()
+		// A PipelineClient worker that could not retire redials forever in a tight loop; make
+		// every such attempt against a torn-down origin slow instead of burning a CPU.
+		time.Sleep(250 * time.Millisecond)
 		return nil, errVPC04OriginStopped
 	}
 	n := o.dials
